@@ -282,3 +282,73 @@ func VerifC05Tail() {
 	src := append([]byte(pre), verifrt.Bytes("t", k)...)
 	verifC05CompileAll(src)
 }
+
+// ---------------------------------------------------------------------------
+// Eval sessions: a fragment rejected for each kind of reason, after it has
+// already done part of its work (imports registered, names declared), must
+// leave a session in which every later fragment still compiles to well-formed
+// Bytecode or an error.
+
+var verifC05BadFrags = [...]string{
+	`b := import("A"); c := import("Bsyntax")`,      // parse error inside a module imported second
+	`b := import("A"); c := import("Bcompile")`,     // compile error inside a module imported second
+	`b := import("A"); c := import("nope")`,         // unknown module after a good import
+	`b := import("A"); d := `,                       // parse error in the fragment itself
+	`b := import("A"); d := undefinedName9`,         // unresolved name after a good import
+	`b := import("A"); return 1 % 0`,                // optimizer error after a good import
+	`b := import("Cyc1")`,                           // import cycle
+	`b := import("A2"); c := import("Bsyntax")`,     // nested good import, then a bad one
+	`f := func() { return import("A") }; g := func() { return import("Bsyntax") }`, // inside functions
+	`b := import("Bnested")`,                        // module that imports A and then a broken module
+}
+
+var verifC05GoodFrags = [...]string{
+	`xN := import("A"); return xN.f()`,
+	`return import("A2").g()`,
+	`qN := 2; return qN`,
+	`hN := func() { return import("A").f() + import("A2").g() }; return hN()`,
+}
+
+func VerifC05EvalSession() {
+	mm := NewModuleMap()
+	mm.AddSourceModule("A", []byte(`n := 40; return {f: func() { n++; return n }}`))
+	mm.AddSourceModule("A2", []byte(`a := import("A"); return {g: func() { return a.f() + 100 }}`))
+	mm.AddSourceModule("Bsyntax", []byte(`return {`))
+	mm.AddSourceModule("Bcompile", []byte(`return undefinedName8`))
+	mm.AddSourceModule("Bnested", []byte(`a := import("A"); return import("Bsyntax")`))
+	mm.AddSourceModule("Cyc1", []byte(`return import("Cyc2")`))
+	mm.AddSourceModule("Cyc2", []byte(`a := import("A"); return import("Cyc1")`))
+	opts := CompilerOptions{ModuleMap: mm, NoOptimize: verifrt.Choice("noopt", 2) == 1}
+	e := NewEval(opts, nil)
+	run := func(src string) (Object, *Bytecode, error) {
+		var v Object
+		var bc *Bytecode
+		var err error
+		verifrt.NoPanic("eval-no-panic", func() { v, bc, err = e.Run(context.Background(), []byte(src)) })
+		if err == nil && bc != nil {
+			verifrt.AssertMsg(verifWellFormed(bc), "bytecode-well-formed", src)
+		}
+		return v, bc, err
+	}
+	if verifrt.Choice("pre", 2) == 1 {
+		// the session already knows module A
+		_, _, err := run(`p := import("A"); p.f()`)
+		verifrt.Assert(err == nil, "first-fragment-evaluates")
+	}
+	bad := verifC05BadFrags[verifrt.Choice("bad", len(verifC05BadFrags))]
+	_, _, err := run(bad)
+	verifrt.AssertMsg(err != nil, "bad-fragment-is-an-error", bad)
+	if verifrt.Choice("again", 2) == 1 {
+		_, _, err = run(bad)
+		verifrt.AssertMsg(err != nil, "bad-fragment-is-an-error-again", bad)
+	}
+	// two later fragments
+	// (N in a fragment stands for its slot number: no name is declared twice)
+	g1 := strings.Replace(verifC05GoodFrags[verifrt.Choice("good1", len(verifC05GoodFrags))], "N", "1", -1)
+	g2 := strings.Replace(verifC05GoodFrags[verifrt.Choice("good2", len(verifC05GoodFrags))], "N", "2", -1)
+	_, _, err1 := run(g1)
+	verifrt.AssertMsg(err1 == nil, "session-accepts-later-fragment", bad+" || "+g1)
+	_, _, err2 := run(g2)
+	verifrt.AssertMsg(err2 == nil, "session-accepts-later-fragment", bad+" || "+g1+" || "+g2)
+	verifrt.Reached("end")
+}
